@@ -232,7 +232,8 @@ class Result:
 
 def fail(res, case, kind, what, error=None, **details):
     """record an oracle failure of the named kind on `case`"""
-    p = dict(case, kind=kind, details=details)
+    p = {k: v for k, v in case.items() if k not in ("kind", "error", "details")}      # a replayed case carries old ones
+    p.update(kind=kind, details=details)
     if error is not None:
         p["error"] = error
     res.oracle_failures.append((what, p))
@@ -352,7 +353,9 @@ def replay_failure(prop_id, payload, judge):
     res = Result(prop_id)
     p = payload.get("input")
     if not isinstance(p, dict) or "kind" not in p:
-        print("replay: %s holds no replayable oracle failure (%s)" % (prop_id, payload.get("kind")))
+        print("replay: this file holds no oracle failure in the replayable form (a case with a \"kind\"): %s / %s"
+              % (payload.get("kind"), payload.get("what")))
+        print("replay: recorded input: %s" % _show(p, 1500))
         return res
     print("replay: property %s, oracle %r, scenario %r" % (prop_id, p["kind"], p.get("scenario")))
     print("replay: recorded: %s" % payload.get("what"))
@@ -385,7 +388,7 @@ def replay_failure(prop_id, payload, judge):
     for w, fp in other[:3]:
         print("replay:   note: another oracle (%s) fails on this case: %s" % (fp.get("kind"), w))
     for w, fp in same:
-        res.oracle_failures.append((w, dict(_jsonable(fp), shrunk=False, no_shrink=True)))
+        res.oracle_failures.append((w, _jsonable(fp)))
     verdict = "fails" if same else "holds"
     if not same and got.known_hits:
         verdict = "holds apart from the known finding %s" % ", ".join(sorted(got.known_hits))
